@@ -28,7 +28,9 @@ class FakeNcp:
         for cell in table:
             if cell == "free":
                 self.table.append([0, 0])
-            elif isinstance(cell, tuple):          # ("stale", gname): endpoint 0 with a left-over id
+            elif isinstance(cell, (tuple, list)) and cell[0] == "ep":   # ("ep", gname, n): programmed with endpoint n (not the one bellows uses)
+                self.table.append([GROUPS[cell[1]], int(cell[2])])
+            elif isinstance(cell, (tuple, list)):          # ("stale", gname): endpoint 0 with a left-over id
                 self.table.append([GROUPS[cell[1]], 0])
             else:
                 self.table.append([GROUPS[cell], 1])
@@ -274,6 +276,23 @@ def run(ctx: Ctx):
         ctx.notes["spec_to_code"]["unreached_sample"] = [str(x) for x in sorted(started_edges - hit, key=str)[:5]]
     ctx.exhaustive = len(hit) == len(started_edges)
 
+    # ---- the same initial tables programmed with other non-zero endpoints (an entry is in use iff its endpoint is non-zero)
+    for family in ("ember", "sl"):
+        for n in range(1, maxn + 1):
+            for tab in init_tables(n, groups):
+                if all(c == "free" for c in tab):
+                    continue
+                for k, eps in enumerate(((2,), (255,), (1, 2, 255))):
+                    vtab = [c if c == "free" else ["ep", c, eps[i % len(eps)]] for i, c in enumerate(tab)]
+                    used = [c for c in tab if c != "free"]
+                    for g in groups:
+                        for a in ANSWERS:
+                            for op in ("Subscribe", "Unsubscribe"):
+                                if ctx.quick and (len(traces) + k) % 3:
+                                    continue
+                                ops = [("Startup",), (op, g, a), ("Subscribe", used[0], "ok"), ("Unsubscribe", used[-1], "ok")]
+                                traces.append(execute(vtab, ops, family))
+                                metas.append({"family": family, "init": vtab, "ops": ops})
     # ---- random long histories beyond the model's bounds (code -> spec)
     big = ("g1", "g2", "g3", "g4", "g5")
     nrand = 60 if ctx.quick else 600
@@ -286,6 +305,8 @@ def run(ctx: Ctx):
             while c != "free" and c in tab:
                 c = ctx.rng.choice(cells)
             tab.append(c)
+        if k % 3 == 0:
+            tab = [c if c == "free" else ["ep", c, ctx.rng.choice((1, 2, 3, 255))] for c in tab]
         ops = [("Startup",)]
         for _ in range(ctx.rng.randint(5, 25 if ctx.quick else 60)):
             r = ctx.rng.random()
